@@ -362,6 +362,8 @@ def step_clauses():
     out.append('[C07:step-request-matches-continuation] res matches Ok(OperationEvaluationResult::Waiting(w, q)) ==> request_matches(w, q)')
     out.append('[C01:frame] within(old(self).pc.rv(), final(self).pc.rv()) || inside(old(self).bytecode.rv(), final(self).pc.rv())')
     out.append('[C07:step-config-frame] frame_misc(*old(self), *final(self))')
+    # DWARF 5 2.6.1.2: a single operation adds at most one piece, only DW_OP_piece / DW_OP_bit_piece do, and that piece is sized
+    out.append('[C07:step-pieces-sized] res matches Ok(r) ==> step_pieces(*old(self), *final(self), r)')
     tout, tfns = total_clauses()
     return out + tout, '\n\n'.join(fns) + '\n\n' + tfns
 
@@ -521,10 +523,16 @@ def populate(ctx, sk):
         'wf(*final(self))', 'frame_eoe(*old(self), *final(self))',
         '[C07:end-of-expression] res <==> final(self).pc.rv().len == 0',
         '[C07:end-of-expression] res ==> final(self).expression_stack@.len() == 0',
+        # DWARF 5 2.5.1.5 (call = callee evaluated in place, then control returns to the operation after the call): the WHOLE
+        # expression is finished iff the current expression and EVERY saved caller frame are exhausted (specs: whole_done)
+        '[C07:end-of-expression-all-callers] res <==> whole_done(*old(self))',
         '[C07:end-of-expression] old(self).pc.rv().len > 0 ==> final(self).pc == old(self).pc && final(self).bytecode == old(self).bytecode && final(self).expression_stack@ == old(self).expression_stack@',
         # DW_OP_call*: a finished callee returns to the saved (pc, bytecode) of its caller, innermost first
         '[C07:call-return] ' + EOE_INV % (('final(self)',) * 6)],
-        loops={0: 'invariant wf(*self), frame_eoe(*old(self), *self),\n ' + EOE_INV % (('self',) * 6) + ', // [C07:call-return]\n decreases self.expression_stack@.len()'})
+        loops={0: 'invariant wf(*self), frame_eoe(*old(self), *self),\n ' + EOE_INV % (('self',) * 6) + ', // [C07:call-return]\n'
+                  # every frame popped so far was exhausted (only an exhausted frame is skipped on return)
+                  ' (forall|j: int| self.expression_stack@.len() < j < old(self).expression_stack@.len() ==> (#[trigger] old(self).expression_stack@[j]).0.rv().len == 0), // [C07:end-of-expression-all-callers]\n'
+                  ' decreases self.expression_stack@.len()'})
 
     E_POST = [
         '[C07:eval-wf] final(self).sp_wf() && final(self).sp_config_same(old(self))',
@@ -541,17 +549,47 @@ def populate(ctx, sk):
     ev.splice('evaluate_internal', ret='res', requires=['wf(*old(self))'],
               attrs='#[verifier::exec_allows_no_decreases_clause]',
               ensures=E_POST + ['res is Err ==> final(self).state == old(self).state',
+                                # DWARF 5 2.6.1.2 across suspensions: a run that starts with sized pieces only suspends with sized pieces only and
+                                # completes with sized pieces only or with exactly one whole-object piece, pc empty and call stack empty
+                                '[C07:whole-object-piece-final] sized_only(*old(self)) ==> (res matches Ok(r) ==> (if r is Complete { pieces_ok(*final(self)) } else { sized_only(*final(self)) }))',
                                 '[C07:eval-value-result] res is Ok && final(self).value_result != old(self).value_result ==> (final(self).value_result matches Some(v) && '
                                 '(value_to_u64(v, old(self).addr_mask) matches Ok(addr) && final(self).result@.last() == Piece::<R, usize> { size_in_bits: None, bit_offset: None, location: Location::Address { address: addr } }))'],
               loops={0: 'invariant wf(*self), config_same(*old(self), *self), self.state == old(self).state, self.value_result == old(self).value_result, self.iteration >= old(self).iteration,\n'
                         '(self.max_iterations matches Some(m) ==> self.iteration <= (if old(self).iteration > m { old(self).iteration } else { m })), // [C01:iteration-limit][C07:iteration-limit]\n'
-                        'owed == 0, // [C07:complete-location-consumed]\n'},
-              before=[('while !self.end_of_expression()', 'let ghost mut owed: int = 0;'),
-                      ('self.iteration = self.iteration.saturating_add(1);', 'let ghost prev_iteration = self.iteration;')],
+                        'owed == 0, // [C07:complete-location-consumed]\n'
+                        # DWARF 5 2.6.1.2: an unsized (whole-object) piece is the only piece and ends the evaluation: once one has been
+                        # emitted the current expression is exhausted and NO caller frame is pending (ghost flag `whole` = "this run
+                        # emitted a whole-object piece").  Holds on the real code because the piece is pushed only under
+                        # `end_of_expression() == true`, whose contract gives pc empty and expression_stack empty; it fails when the
+                        # piece is pushed on "callee finished" (pc empty) alone, caller frames still saved.
+                        '(whole ==> whole_object_final(*self)), // [C07:whole-object-piece-final]\n'
+                        # the same for pieces of earlier runs (suspend / resume): started from sized pieces only, the result is always
+                        # "sized pieces only" or "one whole-object piece, pc empty, call stack empty"
+                        '(sized_only(*old(self)) ==> pieces_ok(*self)), // [C07:whole-object-piece-final]\n'},
+              before=[('while !self.end_of_expression()', 'let ghost mut owed: int = 0;\nlet ghost mut whole: bool = false;'),
+                      # nothing is executed after a whole-object piece (follows from the invariant and end_of_expression's contract)
+                      ('self.iteration = self.iteration.saturating_add(1);', 'assert(!whole && (sized_only(*old(self)) ==> sized_only(*self))); // [C07:whole-object-piece-final]\nlet ghost prev_iteration = self.iteration;'),
+                      # [C07:invalid-piece-only-at-end] "a location description without a piece after sized pieces" (InvalidPiece) can only be
+                      # diagnosed when NOTHING is left to run in any frame: a location completed at the end of a callee while a caller still
+                      # has operations (its DW_OP_piece) is a valid composite and must not be rejected (DWARF 5 2.5.1.5 / 2.6.1.2).
+                      # First textual occurrence = Incomplete arm, `if !self.result.is_empty() {` = Complete arm.
+                      ('return Err(Error::InvalidPiece);', 'assert(whole_done(after_step)); // [C07:invalid-piece-only-at-end]'),
+                      # the sized-piece path is taken only when something IS left to run (in the callee or in a caller)
+                      ('match Operation::parse(&mut self.pc, self.encoding)? {', 'assert(!whole_done(after_step)); // [C07:complete-needs-no-callers]')],
               after=[('self.iteration = self.iteration.saturating_add(1);',
                       'assert(self.iteration >= prev_iteration && (prev_iteration < u32::MAX ==> self.iteration == prev_iteration + 1) && (prev_iteration == u32::MAX ==> self.iteration == u32::MAX)); // [C01:iteration-counter-no-overflow][C07:iteration-counter-no-overflow]'),
+                     # machine state right after the step (before any return to a caller frame): the "is the whole expression finished?"
+                     # decisions below are judged against THIS state with the standard's notion whole_done, not against the code's test
+                     ('let op_result = self.evaluate_one_operation()?;', 'let ghost after_step = *self;'),
                      ('OperationEvaluationResult::Complete { location } => {', 'proof { owed = 1; } // a completed location description must become a piece (or an error)'),
-                     (PUSH_NONE, 'proof { owed = 0; }\nassert(self.result@.last() == Piece::<R, usize> { size_in_bits: None, bit_offset: None, location }); // [C07:complete-location-whole-object]'),
+                     ('if !self.result.is_empty() {', 'assert(whole_done(after_step)); // [C07:invalid-piece-only-at-end]'),
+                     # [C07:complete-needs-no-callers] the completed location becomes the whole-object result only if the current expression AND
+                     # every saved caller frame were exhausted when it completed; [C07:whole-object-piece-final] and then it is the only piece,
+                     # pc is empty and the call stack is empty.  Real code: both follow from `end_of_expression() == true`
+                     # ([C07:end-of-expression-all-callers], res ==> expression_stack empty) and `result.is_empty()` just before the push.
+                     (PUSH_NONE, 'proof { owed = 0; whole = true; }\nassert(self.result@.last() == Piece::<R, usize> { size_in_bits: None, bit_offset: None, location }); // [C07:complete-location-whole-object]\n'
+                                 'assert(whole_done(after_step)); // [C07:complete-needs-no-callers]\n'
+                                 'assert(self.result@.len() == 1 && self.pc.rv().len == 0 && self.expression_stack@.len() == 0); // [C07:whole-object-piece-final]'),
                      (PUSH_SOME, 'proof { owed = 0; }\nassert(self.result@.last().location == location); // [C07:complete-location-piece]')])
     PROTO = '[C07:resume-protocol] old(self).sp_wf() && (old(self).sp_phase() is Failed || %s)'
     ERRST = '[C07:error-state-sticky] old(self).sp_phase() matches Phase::Failed(e) ==> res == Err::<EvaluationResult<R>, Error>(e)'
